@@ -26,6 +26,8 @@ import (
 
 const marginBits = 6.0
 
+const uninformativeBits = 10.0
+
 //go:embed calibration.json
 var calibrationJSON []byte
 
@@ -46,7 +48,7 @@ var calibration = func() map[string]calEntry {
 }()
 
 // judgePrecision compares a measured worst-slot precision with the calibrated bound of (area,key).
-func judgePrecision(c *engine.Chooser, area, key string, bits float64) {
+func judgePrecision(c *engine.Chooser, area, key string, bits float64, sigOverride ...string) {
 	id := area + "/" + key
 	c.Note("%s: worst-slot precision %.2f bits", id, bits)
 	if path := os.Getenv("VERIF_C18_CALIBRATE"); path != "" {
@@ -65,10 +67,22 @@ func judgePrecision(c *engine.Chooser, area, key string, bits float64) {
 		c.Note("%s: no calibration entry, precision not judged", id)
 		return
 	}
+	if e.Min < uninformativeBits {
+		// settings whose precision is decided by an ill-conditioned approximation (CosDiscrete without double angle:
+		// the Han-Ki interpolant has huge coefficients) carry no message-preservation claim; level, scale and key
+		// oracles still apply
+		c.Cover("calibration", "uninformative")
+		c.Note("%s: calibrated precision %.1f bits < %.0f: precision not judged", id, e.Min, uninformativeBits)
+		return
+	}
 	c.Cover("calibration", "hit")
 	bound := math.Floor(e.Min) - marginBits
 	if bits < bound {
-		c.Fail("C18/"+area+"/precision-below-calibrated-bound",
+		sig := "C18/" + area + "/precision-below-calibrated-bound"
+		if len(sigOverride) > 0 && sigOverride[0] != "" {
+			sig = sigOverride[0]
+		}
+		c.Fail(sig,
 			"%s: worst-slot precision %.2f bits < %.0f (calibrated minimum %.2f over %d seeded runs on the unmodified tree, minus %.0f bits margin)",
 			id, bits, bound, e.Min, e.Runs, marginBits)
 	}
